@@ -71,7 +71,7 @@ Fixpoint wire_fields (e : env) (l : list val) (fds : schema) : list (N * wf) :=
 
 (* a field list conforms to a schema: every field sits under the tag of a member, in schema order (so, the
    member tags being strictly ascending, in ascending tag order and at most once), with a wire type the
-   member's IDL type admits; members may be missing only if optional *)
+   member's IDL type accepts; members may be missing only if optional *)
 Inductive conforms : schema -> list (N * wf) -> Prop :=
 | cf_nil : conforms [] []
 | cf_skip fd fds fs : freq fd = false -> conforms fds fs -> conforms (fd :: fds) fs
